@@ -2054,6 +2054,13 @@ func CheckMultisigPar(curve elliptic.Curve, h []byte, pkeys [][]byte, sigs [][]b
 		})
 	}
 
+	// Parse all keys beforehand: a malformed key must fail the check in the
+	// same way irrespective of the order verification results arrive in.
+	pubs := make([]*keys.PublicKey, len(pkeys))
+	for i := range pkeys {
+		pubs[i] = bytesToPublicKey(pkeys[i], curve)
+	}
+
 	k1, k2 := 0, len(pkeys)-1
 	s1, s2 := 0, len(sigs)-1
 
@@ -2088,8 +2095,8 @@ func CheckMultisigPar(curve elliptic.Curve, h []byte, pkeys [][]byte, sigs [][]b
 		go worker(tasks, results)
 	}
 
-	tasks <- task{pub: bytesToPublicKey(pkeys[k1], curve), signum: s1}
-	tasks <- task{pub: bytesToPublicKey(pkeys[k2], curve), signum: s2}
+	tasks <- task{pub: pubs[k1], signum: s1}
+	tasks <- task{pub: pubs[k2], signum: s2}
 
 	sigok := true
 	taskCount := 2
@@ -2133,7 +2140,7 @@ loop:
 			nextKey = k2
 		}
 		taskCount++
-		tasks <- task{pub: bytesToPublicKey(pkeys[nextKey], curve), signum: nextSig}
+		tasks <- task{pub: pubs[nextKey], signum: nextSig}
 	}
 
 	close(tasks)
